@@ -412,31 +412,26 @@ impl Runner {
         let died = self.m.collect();
         // finalizer resurrection (quarantine stream only): nodes that parked themselves survive
         let parked_now: Vec<usize> = self.r.log.parked.borrow().iter().map(|g| g.id).filter(|id| !self.m.parked.contains(id)).collect();
-        let mut really_died = vec![];
-        for d in died {
-            if parked_now.contains(&d) {
-                self.m.nodes[d].swept = false;
-            } else {
-                really_died.push(d);
-            }
-        }
+        let mut really_died = died.clone();
         if !parked_now.is_empty() {
             for p in &parked_now {
                 if !self.m.parked.contains(p) {
                     self.m.parked.push(*p);
                 }
             }
-            // whatever the resurrected nodes reach survives as well
-            let mark = self.m.reachable();
-            let mut still = vec![];
-            for d in really_died {
-                if mark[d] {
-                    self.m.nodes[d].swept = false;
-                } else {
-                    still.push(d);
-                }
+            // the resurrected nodes and whatever they reach survive this collection
+            for d in &died {
+                self.m.nodes[*d].swept = false;
             }
-            really_died = still;
+            let mark = self.m.reachable();
+            really_died.clear();
+            for d in died {
+                if mark[d] {
+                    continue;
+                }
+                self.m.nodes[d].swept = true;
+                really_died.push(d);
+            }
         }
         self.died_total += really_died.len() as u64;
         // every node that was unreachable must have been finalized and freed by *this* collection
